@@ -333,6 +333,16 @@ class Envelope:
 
             C = Config()
 
+            # Only a separate measurement of one member leaves the other unmeasured
+            measure_fock = not (
+                separate_measurement
+                and len(states) == 1
+                and states[0] is self.polarization
+            )
+            measure_polarization = not (
+                separate_measurement and len(states) == 1 and states[0] is self.fock
+            )
+
             if self.expansion_level == ExpansionLevel.Vector:
                 assert isinstance(self.state, jnp.ndarray)
                 assert self.state.shape == (self.dimensions, 1)
@@ -340,11 +350,7 @@ class Envelope:
                 ps = self.state.reshape(reshape_shape)
 
                 # 1. Measure Fock Part
-                if (
-                    (separate_measurement and self.fock in states)
-                    or len(states) == 0
-                    or len(states) == 2
-                ):
+                if measure_fock:
                     probabilities = jnp.sum(
                         jnp.abs(ps) ** 2, axis=self.polarization.index
                     ).flatten()
@@ -368,11 +374,7 @@ class Envelope:
                     elif self.fock.index == 1:
                         ps = jnp.einsum(einsum, ps, post_measurement)
 
-                if (
-                    (separate_measurement and self.polarization in states)
-                    or len(states) == 0
-                    or len(states) == 2
-                ):
+                if measure_polarization:
                     probabilities = jnp.sum(
                         jnp.abs(ps) ** 2, axis=self.fock.index
                     ).flatten()
@@ -405,11 +407,7 @@ class Envelope:
                 ps = self.state.reshape(reshape_shape).transpose(transpose_pattern)
 
                 # 1. Measure Fock Part
-                if (
-                    (separate_measurement and self.fock in states)
-                    or len(states) == 0
-                    or len(states) == 2
-                ):
+                if measure_fock:
                     if self.fock.index == 0:
                         subspace = jnp.einsum("bcaa->bc", ps)
                     else:
@@ -440,11 +438,7 @@ class Envelope:
                         ps = jnp.einsum("ab,cd->abcd", ps, post_measurement)
 
                 # 2. Measure Polarization Part
-                if (
-                    (separate_measurement and self.polarization in states)
-                    or len(states) == 0
-                    or len(states) == 2
-                ):
+                if measure_polarization:
                     if self.polarization.index == 1:
                         subspace = jnp.einsum("aabc->bc", ps)
                     else:
